@@ -1,7 +1,7 @@
 (* Pinned statements of the C03 theorems (generated once by bin/genpins, then committed):
    fails to compile if Props/C03.v is weakened, renamed or given other hypotheses. *)
 From Coq Require Import SpecFloat.
-Require Import Base Value Float PrintOptions ParseOptions Reader Scan Num Parser DepthProofs.
+Require Import Base Value Float PrintOptions ParseOptions Reader Scan Num Parser DepthProofs DepthBoundProofs.
 Require Import Lexpr.Props.C03.
 
 Check (C03_budget_restored :
@@ -23,6 +23,18 @@ Check (C03_from_trait_no_panic :
   no_panic (from_trait ro alpha fast std_parse k inp) /\
   no_panic (datum_from_trait ro alpha fast std_parse k inp)).
 
+Check (C03_depth_every_call :
+  forall ro alpha fast std_parse fuel D s, depth s = D -> 1 <= D <= 128 ->
+  match next_value ro alpha fast std_parse fuel s with
+  | (POk (Some v), s') => N.of_nat (vdepth v) < D /\ depth s' = D
+  | (POk None, s') => depth s' = D
+  | (PErr _, _) => True
+  end).
+
+Check (C03_depth_bounded :
+  forall ro alpha fast std_parse k inp v,
+  from_trait ro alpha fast std_parse k inp = POk v -> (vdepth v <= 127)%nat).
+
 Check (C03_limit_witness :
   forallb (fun k =>
     is_ok (from_trait default_ro (fun _ => true) true dec_to_f64 k (bytes_events (parens 127))) &&
@@ -31,3 +43,9 @@ Check (C03_limit_witness :
     is_limit (from_trait default_ro (fun _ => true) true dec_to_f64 k (bytes_events (quotes 128))) &&
     is_limit (datum_from_trait default_ro (fun _ => true) true dec_to_f64 k (bytes_events (quotes 128))))
     [SrcStr; SrcSlice; SrcIo] = true).
+
+Check (C03_depth_tight :
+  match from_trait default_ro (fun _ => true) true dec_to_f64 SrcSlice (bytes_events (parens 127)) with
+  | POk v => vdepth v = 127%nat
+  | PErr _ => False
+  end).
